@@ -45,9 +45,15 @@ THEOREMS = [
     'C08_chain_raise_stops',
     'C08_late_binding',
     'C08_load_order_irrelevant',
-    'C08_late_resolution',
+    'C08_resolution_at_first_resumption',
+    'C08_resolution_moment',
     'C08_resolved_call_keeps_definitions',
-    'C08_call_time_resolution_refuted',
+    'C08_call_time_resolution',
+    'C08_call_time_resolution_answers',
+    'C08_created_query_unresolved',
+    'C08_unstarted_query_sees_engine_of_first_next',
+    'C08_nexts_are_schedule',
+    'C08_history_call_time_resolution',
     'C08_drain_is_constant_schedule']
 FUEL = 12
 LIM = 14
@@ -59,8 +65,8 @@ RESERVED = ['__builtins__', 'variable', 'atom', 'functor', 'functor1', 'functor2
 
 RULE = ('histories of 4-16 operations over {register_function (arity None / n / negative), load_script_from_string '
         '(overwrite on/off; compiled Prolog, scripts raising at exec after some defs, broken Python), assert_fact, clear, '
-        'start/next/close of suspended queries}; after every operation every name/arity in play is queried (answers in '
-        'order).  Non-trivial: at some point a key holds >= 2 chained definitions or a name has both an exact and a '
+        'start/next/close of suspended queries (created / suspended on a fact / suspended inside a definition while facts '
+        'and definitions change)}; after every operation every name/arity in play is queried (answers in order).  Non-trivial: at some point a key holds >= 2 chained definitions or a name has both an exact and a '
         'variadic definition.  Distinct by hash of the case.')
 TRUSTED_BASE = [
     'Coq 8.16.1 kernel (coqc); vm_compute for the in-Coq evaluation of the model on every case',
@@ -413,15 +419,18 @@ class Spec:
             self.maxchain = max(self.maxchain, len(v))
             if key.endswith('_n') and any(k2 != key and k2.rsplit('_', 1)[0] == key[:-2] and k2.rsplit('_', 1)[1].isdigit() for k2 in self.ctx):
                 self.exact_and_variadic = True
+    def call_defs(self, name, n):
+        """the definitions a call name/n uses: exactly n arguments, else the variadic ones; none for an API name"""
+        if name in RESERVED:
+            return []
+        ds = self.ctx.get(_key(name, n))
+        if ds is None:
+            ds = self.ctx.get(_key(name, None), [])
+        return list(ds)
     def expected(self, name, n, lim):
         """(answers, end) when the statement determines them without running calls, else (facts prefix, None)"""
         fa = [list(f) for f in self.facts.get((name, n), [])]
-        if name in RESERVED:
-            ds = []
-        else:
-            ds = self.ctx.get(_key(name, n))
-            if ds is None:
-                ds = self.ctx.get(_key(name, None), [])
+        ds = self.call_defs(name, n)
         if not all(_callfree(d) for d in ds):
             return fa, None
         if any(d['params'] is not None and d['params'] != n for d in ds):
@@ -437,6 +446,53 @@ class Spec:
 def load_should_fail(sc):
     return bool(sc.get('broken')) or any(st[0] == 'fail' for st in sc['stmts'])
 
+class Suspended:
+    """What the property demands of a query object that is resumed answer by answer while the engine is changed:
+    nothing is fixed before its first `next`; at its first `next` the call is made - the facts of name/N and the
+    definitions for name/N of THAT moment are what it answers (fully determined when these definitions make no calls,
+    otherwise only the facts are), whatever is loaded / registered / asserted / cleared afterwards."""
+    def __init__(self, name, n):
+        self.name, self.n = name, n
+        self.state = 'new'          # new | run | unknown | dead
+        self.exp, self.end, self.pos = None, None, 0
+        self.nfacts = 0
+    def on_next(self, spec, res):
+        """returns an error text or None"""
+        if res[0] == 'oof':
+            self.state = 'unknown'
+            return None
+        if self.state == 'dead':
+            return None if res == ['stop'] else 'a query that has ended was resumed and gave %r' % (res,)
+        if self.state == 'new':
+            self.exp, self.end = spec.expected(self.name, self.n, None)
+            self.nfacts = len(spec.facts.get((self.name, self.n), []))
+            self.first_ctx = spec.call_defs(self.name, self.n)
+            self.state, self.pos = 'run', 0
+        if self.state == 'unknown':
+            if res[0] in ('stop', 'raised'):
+                self.state = 'dead'
+            return None
+        if self.pos < len(self.exp):
+            want = ['ans', self.exp[self.pos]]
+            self.pos += 1
+            if res != want:
+                return '%s/%d, made at its first next, must answer %r here (%s of the moment of the call), got %r' % (
+                    self.name, self.n, want, 'fact' if self.pos <= self.nfacts else 'definitions', res)
+            return None
+        if self.end is None:
+            self.state = 'unknown'
+            if res[0] in ('stop', 'raised'):
+                self.state = 'dead'
+            return None
+        want = ['stop'] if self.end == 'done' else ['raised']
+        self.state = 'dead'
+        if res != want:
+            return '%s/%d, made at its first next, must end with %r after its %d answers, got %r' % (
+                self.name, self.n, want, len(self.exp), res)
+        return None
+    def in_facts(self):
+        return self.state == 'run' and 0 < self.pos <= self.nfacts
+
 def oracle(case, io):
     if not isinstance(io, dict):
         return None
@@ -445,6 +501,7 @@ def oracle(case, io):
     spec = Spec()
     lim = case.get('lim', LIM)
     prev = None
+    susp = []
     for i, (o, (res, probes)) in enumerate(zip(case['ops'], io['steps'])):
         if o[0] == 'load':
             want = 'raised' if load_should_fail(o[1]) else 'ok'
@@ -452,6 +509,18 @@ def oracle(case, io):
                 return 'operation %d: load %s but should have %s' % (i, res[0], want)
             if res[0] == 'raised' and prev is not None and probes != prev:
                 return 'operation %d: a load that raised changed the answers of some predicate' % i
+        elif o[0] == 'start':
+            susp.append(Suspended(o[1], o[2]))
+        elif o[0] == 'next':
+            if o[1] >= len(susp):
+                if res != ['nosuch']:
+                    return 'operation %d: driver error' % i
+            else:
+                err = susp[o[1]].on_next(spec, res)
+                if err:
+                    return 'operation %d (next of suspended query %d): %s' % (i, o[1], err)
+        elif o[0] == 'close' and o[1] < len(susp):
+            susp[o[1]].state = 'dead'
         spec.apply(o, res[0] == 'ok')
         for (name, n), p in zip(case['probes'], probes):
             exp, end = spec.expected(name, n, lim)
@@ -469,6 +538,29 @@ def oracle(case, io):
                         i, o[0], name, n, got, gend, exp, end)
         prev = probes
     return None
+
+def suspended_stats(case, io):
+    """(number of `next` that resume a call suspended on one of its FACTS after the definitions for its name/arity
+    were changed, number of first `next` of a query object created before a change of its facts or definitions)"""
+    spec = Spec()
+    susp = []
+    on_fact = unstarted = 0
+    for o, (res, probes) in zip(case['ops'], io['steps']):
+        if o[0] == 'start':
+            q = Suspended(o[1], o[2])
+            q.created = (spec.call_defs(o[1], o[2]), list(spec.facts.get((o[1], o[2]), [])))
+            susp.append(q)
+        elif o[0] == 'next' and o[1] < len(susp):
+            q = susp[o[1]]
+            if q.state == 'new' and q.created != (spec.call_defs(q.name, q.n), list(spec.facts.get((q.name, q.n), []))):
+                unstarted += 1
+            if q.in_facts() and q.first_ctx != spec.call_defs(q.name, q.n):
+                on_fact += 1
+            q.on_next(spec, res)
+        elif o[0] == 'close' and o[1] < len(susp):
+            susp[o[1]].state = 'dead'
+        spec.apply(o, res[0] == 'ok')
+    return on_fact, unstarted
 
 def nontrivial(case, io):
     if not isinstance(io, dict):
@@ -628,7 +720,7 @@ class Gen:
         elif sc < 0.6:
             # suspended query across a change of its definitions
             name, n = self.name_ar()
-            for _ in range(rng.choice([0, 0, 1, 2])):
+            for _ in range(rng.choice([0, 1, 1, 2, 3])):
                 ops.append(['assert', name, [rng.choice(ATOMS) for _ in range(n)], True])
             for _ in range(rng.choice([1, 2, 2, 3])):
                 ops.append(self.op_load(keys=[(name, n)], overwrite=rng.random() < 0.35, fail=False))
@@ -637,13 +729,16 @@ class Gen:
             self.nsusp += 1
             for _ in range(rng.choice([0, 1, 1, 2, 3])):
                 ops.append(['next', i])
-            r = rng.random()
-            if r < 0.7:
-                ops.append(self.op_load(keys=[(name, n)], overwrite=rng.random() < 0.4, fail=False))
-            elif r < 0.85:
-                ops.append(self.op_reg(name, n, rng.choice(['infer', 'explicit'])))
-            else:
-                ops.append(['clear'])
+            for _ in range(rng.choice([1, 1, 1, 2])):
+                r = rng.random()
+                if r < 0.6:
+                    ops.append(self.op_load(keys=[(name, n)], overwrite=rng.random() < 0.5, fail=False))
+                elif r < 0.75:
+                    ops.append(self.op_reg(name, n, rng.choice(['infer', 'explicit', 'variadic'])))
+                elif r < 0.88:
+                    ops.append(['assert', name, [rng.choice(ATOMS) for _ in range(n)], rng.random() < 0.5])
+                else:
+                    ops.append(['clear'])
             for _ in range(rng.choice([1, 2, 3])):
                 ops.append(['next', i])
         while len(ops) < nops:
@@ -773,7 +868,21 @@ def builtin_corpus():
     case([load([df('foo', 1, d1)], True), load([df('foo_1', 0, D(0, (0, []), (0, [])))], True),
           ['reg', 'foo', 'variadic', v], load([df('foo_n', 0, D(0, (0, [])))], True), ['reg', 'foo_n', ['explicit', 1], d3]],
          [('foo', 0), ('foo', 2), ('foo_1', 0), ('foo_1', 1), ('foo_n', 0), ('foo_n', 1), ('foo_1_0', 0), ('foo_n_0', 0)])
-    # a suspended call keeps what it resolved; one suspended in its facts resolves later
+    # THE witness of call-time resolution: fact, old definition, started (answers the fact), the definition is
+    # replaced, resumed: must answer old (a new call answers new)
+    dold, dnew = D(1, (0, [u(0, 'old')])), D(1, (0, [u(0, 'new')]))
+    case([['assert', 'p', ['fact'], True], load([df('p', 1, dold)], True), ['start', 'p', 1], ['next', 0],
+          load([df('p', 1, dnew)], True), ['next', 0], ['next', 0], ['next', 0]])
+    # the same through register_function, a combining load, clear, and with a variadic definition becoming shadowed
+    case([['assert', 'p', ['f1'], True], ['assert', 'p', ['f2'], True], ['reg', 'p', 'variadic', D(None, (0, [u(0, 'var')]))],
+          ['start', 'p', 1], ['start', 'p', 1], ['start', 'p', 1], ['next', 0], ['next', 1], ['next', 1],
+          ['reg', 'p', ['explicit', 1], dold], ['next', 0], load([df('p', 1, dnew)], False), ['next', 1], ['clear'],
+          ['next', 2], ['next', 0], ['next', 0], ['next', 1], ['next', 1], ['next', 2], ['next', 2]])
+    # nothing is fixed before the first next: created, then facts and definitions change, then started
+    case([['assert', 'p', ['f'], True], load([df('p', 1, dold)], True), ['start', 'p', 1], ['start', 'q', 1],
+          load([df('p', 1, dnew)], True), ['assert', 'p', ['g'], False], load([df('q', 1, d1)], True),
+          ['next', 0], ['next', 0], ['next', 0], ['next', 0], ['next', 1], ['next', 1], ['next', 1]])
+    # a suspended call keeps what it resolved, also one suspended in its facts
     case([['assert', 'p', ['f1'], True], load([df('p', 1, d1)], True), ['start', 'p', 1], ['start', 'p', 1],
           ['next', 0], ['next', 0], ['next', 1], load([df('p', 1, d3)], True), ['assert', 'p', ['f2'], True],
           ['next', 0], ['next', 0], ['next', 1], ['next', 1], ['next', 1], ['clear'], ['start', 'p', 1], ['next', 2]])
@@ -845,7 +954,8 @@ def shrink(case):
 
 def distribution(cases, obs):
     d = {'ops': {}, 'history_length': {}, 'loads_failing': 0, 'loads_ok': 0, 'loads_combining': 0, 'max_chain': {},
-         'exact_and_variadic': 0, 'suspended_resumed_after_change': 0, 'probe_end': {}, 'answers_per_probe': {}, 'model_oof_skipped': 0}
+         'exact_and_variadic': 0, 'suspended_resumed_after_change': 0,
+         'resumed_on_fact_after_definition_change': 0, 'first_next_after_change_since_creation': 0, 'probe_end': {}, 'answers_per_probe': {}, 'model_oof_skipped': 0}
     for c, o in zip(cases, obs):
         k = str(len(c['ops']))
         d['history_length'][k] = d['history_length'].get(k, 0) + 1
@@ -868,11 +978,16 @@ def distribution(cases, obs):
                 d['suspended_resumed_after_change'] += 1
                 changed_since[op[1]] = False
         if isinstance(o, dict):
+            of, un = suspended_stats(c, o)
+            d['resumed_on_fact_after_definition_change'] += of
+            d['first_next_after_change_since_creation'] += un
             spec = Spec()
             for op, (res, probes) in zip(c['ops'], o['steps']):
                 spec.apply(op, res[0] == 'ok')
                 for p in probes:
                     e = p[1][0]
+                    if e == 'oof':
+                        d['model_oof_skipped'] += 1
                     d['probe_end'][e] = d['probe_end'].get(e, 0) + 1
                     a = str(min(len(p[0]), 8))
                     d['answers_per_probe'][a] = d['answers_per_probe'].get(a, 0) + 1
